@@ -139,6 +139,11 @@ func runC15(c *Ctx) {
 	c.Rule("R15c", "type-attribute names declared for the registries camelise to a field of a schema.Type struct", 4)
 	c.Rule("R15d", "each dialect's TypeRegistry is built with its own ParseType and FormatType (WithParser / WithFormatter)", 6)
 
+	c.Rule("R15g", ruleTextIndependentAttrs, 4)
+	checkIndependentAttrs(c, "R15g", []string{pSqlite, pMysql, pPostgres})
+	c.Rule("R15h", ruleTextOpaqueUDT, 1)
+	checkOpaqueUDT(c, "R15h", []string{pSqlite, pMysql, pPostgres})
+
 	typeIface := c.NamedType(pSchema, "Type").Underlying().(*types.Interface)
 	for _, pp := range []string{pSqlite, pMysql, pPostgres} {
 		pf := c.Func("R15a", pp, "", "ParseType")
@@ -321,6 +326,10 @@ func runC03(c *Ctx) {
 	checkIndexPartDescRule(c, "R03d")
 	c.Rule("R03e", ruleTextSQLText, 6)
 	checkSQLTextSearches(c, "R03e")
+	c.Rule("R03f", ruleTextFKActions, 4)
+	checkFKActionGuards(c, "R03f", []string{pSqlite, pMysql, pPostgres})
+	c.Rule("R03g", ruleTextOpaqueUDT, 1)
+	checkOpaqueUDT(c, "R03g", []string{pSqlite})
 
 	// R03b
 	if fi := c.Func("R03b", pCmdlog, "", "fmtPlan"); fi != nil {
